@@ -257,6 +257,23 @@ def handle (j : Json) : R Json := do
       | [a, b] => return (← a.getStr?, ← b.getStr?)
       | _ => throw "bad pair")
     return Json.mkObj [("ok", Json.bool (writesOwnB pairs))]
+  | "ctx_model" =>
+    -- what module `y` shows (members, struct) after `y.<m> = v`, on its own or inside a struct access of module `x`
+    let shown ← (← fldArr j "probes").mapM (fun pj => do
+      let y ← fldStr pj "y"
+      let x ← optS (← fld pj "x")
+      let w : StructRW.Mods String := [(y, ⟨0, ← parseProps (← fld pj "struct"), ← parseProps (← fld pj "members")⟩)] ++
+        (match x with | some xn => [(xn, ⟨0, [], []⟩)] | none => [])
+      let m ← fldStr pj "m"
+      let v ← fldStr pj "v"
+      let w' := match x with
+        | some xn => StructRW.leave (StructRW.memberUpdate (StructRW.enter w xn) y m v) xn
+        | none => StructRW.memberUpdate w y m v
+      let pairs := fun (l : List (String × String)) => jarr (l.map (fun kv => jarr [Json.str kv.1, Json.str kv.2]))
+      match aget? w' y with
+      | some sp => return jarr [pairs sp.members, pairs sp.struct]
+      | none => throw "ctx_model: module lost")
+    return Json.mkObj [("shown", jarr shown)]
   | "judge_ctx" =>
     let pairs ← (← fldArr j "pairs").mapM (fun p => do
       match ← arr p with
